@@ -373,6 +373,115 @@ def check_flow(hi, di, gi, no_new=False):
     return True, None, None, bool(paths)
 
 
+# ---------------------------------------------------------------- --acl-safe mode: the safe view is completed from its own content
+SAFE_HW = ["Cisco Catalyst 3750", "Cisco Catalyst 6500", "Cisco Nexus 3432"]
+SAFE_BLOCKS = ["interface Loopback5", "interface GigabitEthernet1/0/5", "interface Ethernet1/5"]
+NSAFE = len(SAFE_HW) * len(SAFE_BLOCKS) * 2
+
+
+def check_safe_flow(hi, bi, with_dev_iface):
+    """two generators: one creates a block and has NO safe ACL, the other has a safe ACL covering default lines of such
+    blocks.  The safe view (what --acl-safe deploys) never mentions that block, so no command may address it."""
+    import logging
+    logging.disable(logging.CRITICAL)
+    from annet import gen as ann_gen, api
+    from annet.generators import PartialGenerator
+    from annet.annlib.netdev.views.hardware import HardwareView
+    from annet.vendors import registry_connector
+    hw = HardwareView(SAFE_HW[hi], None)
+    block = SAFE_BLOCKS[bi]
+    iface = "interface Ethernet1/1" if "Nexus" in SAFE_HW[hi] else "interface GigabitEthernet0/1"
+    dev_text = (iface + "\n description uplink\n mtu 9000\n") if with_dev_iface else ""
+
+    class _St:
+        def flush_perf(self):
+            return {}
+
+    class Addressing(PartialGenerator):
+        def acl(self, device):
+            return "interface *\n    ip address *\n"
+
+        def run(self, device):
+            with self.block(block):
+                yield "ip address 10.0.0.5 255.255.255.255"
+
+    class Mtu(PartialGenerator):
+        def acl(self, device):
+            return "interface *\n    description *\n    mtu *\n    no shutdown\n    shutdown\n"
+
+        def acl_safe(self, device):
+            return self.acl(device)
+
+        def run(self, device):
+            with self.block(iface):
+                # (not an mtu line: `mtu 1500` is a literal default of these models and a second mtu line beside it is a
+                # malformed configuration, which is not what this obligation is about)
+                yield "description uplink2"
+
+    class Dev:
+        def __init__(self):
+            self.hw = hw
+            self.hostname = "dev1"
+            self.fqdn = "dev1.example"
+            self.id = 1
+            self.breed = hw.vendor
+            self.tags = []
+            self.storage = _St()
+
+        def is_pc(self):
+            return False
+
+        def __hash__(self):
+            return 1
+
+    class Args:
+        no_acl = False
+        acl_safe = True
+        no_acl_exclusive = False
+        generators_context = None
+        profile = False
+        fail_on_empty_config = False
+        filter_acl = ""
+        filter_ifaces = None
+        filter_peers = None
+        filter_policies = None
+        required_packages_check = False
+    dev = Dev()
+    ctx = ann_gen.OldNewDeviceContext(
+        config="-", args=Args(), downloaded_files={}, failed_files={}, running={}, failed_running={}, no_new=False,
+        stdin={"config": dev_text, "filter_acl": ""}, add_annotations=False, add_implicit=True, do_files_download=False,
+        gens=ann_gen.DeviceGenerators(partial={dev: [Addressing(_St()), Mtu(_St())]}, ref={dev: []}), fetched_packages={},
+        failed_packages={}, device_count=1, do_print_perf=False)
+    base = {"hw": SAFE_HW[hi], "block_of_the_unsafe_generator": block, "device_text": dev_text}
+    try:
+        res = ann_gen._old_new_per_device(ctx, dev, None)
+        if res.err is not None:
+            return True, None, "outside:err:%s" % type(res.err).__name__, False
+        _, patch = api._diff_and_patch(dev, res.get_old(True), res.get_new(True), res.get_acl_rules(True), None, False)
+        fmt = registry_connector.get().match(hw).make_formatter()
+        paths = [tuple(p) for p in fmt.cmd_paths(patch)]
+    except Exception as e:  # noqa
+        return False, dict(base, error=repr(e)), "safe-flow:exception:%s" % type(e).__name__, True
+    bad = [p for p in paths if p[0] == block]
+    if bad:
+        return False, dict(base, safe_patch=paths, safe_new=tree_to_json(res.get_new(True))), \
+            "safe-flow:command-for-a-block-only-the-unsafe-generator-mentions", True
+    return True, None, None, block in res.new
+
+
+def h_safe_flow(case: int) -> bool:
+    """
+    pre: 0 <= case < NSAFE
+    post: _ == True
+    """
+    c = pick(case, NSAFE)
+    with NoTracing():
+        hi, bi, wd = digits(c, [len(SAFE_HW), len(SAFE_BLOCKS), 2])
+        ok, detail, kind, nt = check_safe_flow(hi, bi, bool(wd))
+        rt.record({"safe_flow": [hi, bi, wd]}, ok, [hi, bi, wd] if nt else None, detail=detail, fingerprint="C17:%s" % kind)
+    return ok
+
+
 def h_flow(case: int) -> bool:
     """
     pre: 0 <= case < NFLOW
@@ -465,6 +574,7 @@ def plan(tier):
         obs.append(dict(name="implicit[%s]" % m, func="h_implicit", shards=2 if q else 8, timeout=280 if q else 2400, env={"VT_HW": i}))
     obs.append(dict(name="gen.flow", func="h_flow", shards=2, timeout=200))
     obs.append(dict(name="devices.sequence", func="h_sequence", shards=1, timeout=200))
+    obs.append(dict(name="gen.flow.acl-safe", func="h_safe_flow", shards=1, timeout=200))
     obs.append(dict(name="twin", func="h_twin", shards=1, timeout=100, expect="refuted"))
     return obs
 
@@ -474,6 +584,9 @@ def _from_json(j):
 
 
 def replay(obligation, case):
+    if "safe_flow" in case:
+        ok, detail, kind, _ = check_safe_flow(case["safe_flow"][0], case["safe_flow"][1], bool(case["safe_flow"][2]))
+        return {"ok": ok, "detail": detail, "fingerprint": "C17:%s" % kind}
     if "sequence" in case:
         ok, detail, kind, _ = check_sequence(*case["sequence"])
         return {"ok": ok, "detail": detail, "fingerprint": "C17:%s" % kind}
